@@ -472,6 +472,78 @@ func c08DestinationUses(c *Ctx) {
 	if uses < 3 {
 		c.bad("cmd.runExtract:destination", fn.Pos(), "only %d uses of the destination argument found", uses)
 	}
+	// inside the temp-file path the destination name is only looked at (directory, base name) and is
+	// the target of the final rename: nothing may be created, truncated or removed under it
+	tf := c.mustFn("cmd.writeWithTmpFile")
+	if tf == nil {
+		return
+	}
+	var nameParam *ssa.Parameter
+	for _, p := range tf.Params {
+		if p.Type().String() == "string" && nameParam == nil {
+			nameParam = p
+		}
+	}
+	if nameParam == nil {
+		c.bad("cmd.writeWithTmpFile:destination", tf.Pos(), "no string parameter found")
+		return
+	}
+	isName := func(v ssa.Value) bool {
+		for _, l := range leaves(v) {
+			if isParam(l, nameParam) {
+				return true
+			}
+			if p, ok := l.(*ssa.Parameter); ok {
+				for _, a := range boundArgs(p) {
+					for _, l2 := range leaves(a) {
+						if isParam(l2, nameParam) {
+							return true
+						}
+					}
+				}
+			}
+		}
+		return false
+	}
+	renames := 0
+	seenF := map[*ssa.Function]bool{}
+	for _, f0 := range fnsDeep(tf) {
+		for _, f := range withClosures(f0) {
+			if seenF[f] {
+				continue
+			}
+			seenF[f] = true
+			for _, b := range f.Blocks {
+				for _, ins := range b.Instrs {
+					ci, ok := ins.(ssa.CallInstruction)
+					if !ok {
+						continue
+					}
+					for k, a := range ci.Common().Args {
+						if a.Type().String() != "string" || !isName(a) {
+							continue
+						}
+						name := callee(ci)
+						key := "cmd.writeWithTmpFile:destination->" + name
+						switch {
+						case name == "os.Rename" && k == 1:
+							renames++
+							c.ok(key, ins.Pos(), "the destination is the target of the final rename")
+						case strings.HasPrefix(name, "path/filepath.") || strings.HasPrefix(name, "path.") || strings.HasPrefix(name, "strings.") || strings.HasPrefix(name, "fmt."):
+							c.ok(key, ins.Pos(), "pure function of the name")
+						case directCallee(ci) != nil && newHelpers[directCallee(ci)]:
+							// followed into the helper
+						default:
+							c.bad(key, ins.Pos(), "the destination name is passed to %s inside the temp-file path: the destination can be created, changed or removed before (or without) the atomic rename", name)
+						}
+					}
+				}
+			}
+		}
+	}
+	if renames == 0 {
+		c.bad("cmd.writeWithTmpFile:destination", tf.Pos(), "the destination is not the target of an os.Rename")
+	}
 }
 
 // funcValueDefs lists what a function-typed value can be: for a phi each incoming function with its
